@@ -22,14 +22,18 @@ def main():
     sh("rsync -a /repo/ %s/" % scratch)
     out = {"property": pid, "ran": []}
     env = dict(os.environ, PYTHONPATH=scratch)
+    shutil.copy(demo, os.path.join(scratch, os.path.basename(demo)))
+    demo_run = os.path.join(scratch, os.path.basename(demo))
     # demo on the unchanged copy
-    rc0, o0 = sh("/venv/bin/python -W ignore %s" % demo, cwd=scratch, env=env, timeout=900)
+    rc0, o0 = sh("/venv/bin/python -W ignore %s" % demo_run, cwd=scratch, env=env, timeout=900)
     out["demo_without_change"] = {"exit": rc0, "tail": o0[-400:]}
     rc, o = sh("git apply --whitespace=nowarn %s" % patch, cwd=scratch)
     out["patch_applies"] = (rc == 0)
     if rc != 0:
         out["apply_error"] = o[-400:]
-    rc1, o1 = sh("/venv/bin/python -W ignore %s" % demo, cwd=scratch, env=env, timeout=900)
+    rc1, o1 = sh("/venv/bin/python -W ignore %s" % demo_run, cwd=scratch, env=env, timeout=900)
+    if os.path.exists(demo_run):
+        os.remove(demo_run)
     out["demo_with_change"] = {"exit": rc1, "tail": o1[-600:]}
     rct, ot = sh("/venv/bin/python -m pytest -q -p no:cacheprovider --timeout=900 2>&1 | tail -1", cwd=scratch)
     out["suite_with_change"] = ot.strip()
